@@ -469,6 +469,14 @@ class Exec(Interp):
         for t in node.targets:
             if isinstance(t, ast.Name):
                 self.frame.env.pop(t.id, None)
+            elif isinstance(t, ast.Subscript) and isinstance(t.slice, ast.Slice) and t.slice.upper is None and t.slice.step is None \
+                    and t.slice.lower is not None and isinstance(self.ev(t.value), SymList):
+                # del xs[a:] on a list of symbolic length: truncation to max(0, min(len, a)) for a >= 0
+                base = self.ev(t.value)
+                a = to_z3(self.ev(t.slice.lower))
+                if self.feasible(a < 0):
+                    raise OutsideSubset("del xs[a:] with a possibly negative a", node)
+                base.n = z3.If(a < base.n, a, base.n)
             elif isinstance(t, ast.Subscript):
                 base = self.ev(t.value)
                 idx = self.ev(t.slice)
